@@ -109,7 +109,8 @@ def run(ctx, escalated=False):
         pg = ctx.rng.randint(1, 10 ** 6) if ctx.rng.random() < 0.4 else 0
         jobs.append({"id": c.data["id"], "spec": spec, "hash_ws": c.data["hash_ws"],
                      "rlimit": c.data["rlimit"], "pgen": pg, "batch": ctx.rng.choice(BATCHES),
-                     "throttle": ctx.rng.choice([0, 2]), "attempts": ctx.rng.choice([1, 3])})
+                     "throttle": ctx.rng.choice([0, 2]), "attempts": ctx.rng.choice([1, 3]),
+                     "symlink": ctx.rng.random() < 0.25})
         c.pgen = pg
         cases.append(c)
     # the model comparison only applies to the studies without generator changes
